@@ -17,12 +17,13 @@ CONFIG = {
                    {"name": "queue", "timeout": {"quick": 600, "thorough": 1500}},
                    {"name": "socks", "timeout": {"quick": 600, "thorough": 1800}},
                    {"name": "stdiol", "timeout": {"quick": 600, "thorough": 1800}},
-                   {"name": "readahead", "timeout": {"quick": 300, "thorough": 900}}],
+                   {"name": "readahead", "timeout": {"quick": 300, "thorough": 900}},
+                   {"name": "dnsloss", "timeout": {"quick": 600, "thorough": 1800}}],
     "rule": "framing: every boundary write size x 3 reader buffer sizes enumerated for bufio / ws / bufio-over-ws, plus random "
             "multi-write / multi-read scripts; bytes: real client+server in-process on tcp, tcp+tls, StartTLS, ws, stdio, udp/kcp, dns "
             "(thorough: + wss, stdio+tls, MiB payloads, more partitions) with echo / write-then-close / read-until-EOF; "
             "burst: thousands of short connections whose target writes and closes at once, 16 at a time over one "
-            "session (races between the last data and the close show only under volume); stdiol: the standard-streams listener (application = a pair of pipes wrapped as Start wraps stdin/stdout) in modes echo / up / down; queue (shared with C07): the DNS carrier's sequence/acknowledgement queues on histories of any length incl. the 16-bit wrap (a multi-MiB transfer over the DNS tunnel is 65536+ chunks); readahead (shared with C17): the real per-stream server path fed selection tokens and payload in random write lengths without waiting for the server; socks: connections through the built-in SOCKS5 channel (echo / target closes first / application closes first, goroutine census); non-trivial = at least one byte delivered; distinct = distinct op line",
+            "session (races between the last data and the close show only under volume); stdiol: the standard-streams listener (application = a pair of pipes wrapped as Start wraps stdin/stdout) in modes echo / up / down; queue (shared with C07): the DNS carrier's sequence/acknowledgement queues on histories of any length incl. the 16-bit wrap (a multi-MiB transfer over the DNS tunnel is 65536+ chunks); readahead (shared with C17): the real per-stream server path fed selection tokens and payload in random write lengths without waiting for the server; dnsloss: real client+server over the DNS carrier with the real UDP communicator behind a relay that loses single query / answer datagrams (and 2..4 retransmissions in a row in the thorough tier) once the logical connection is up, modes echo / up / down — the transfer must arrive intact (model SA.Model.DnsLoss: retransmission of a timed-out exchange, fact c01TimeoutCauseCuts); socks: connections through the built-in SOCKS5 channel (echo / target closes first / application closes first, goroutine census); non-trivial = at least one byte delivered; distinct = distinct op line",
     "trusted_base": COMMON_TB + ["third-party transports (net, crypto/tls, smux, kcp-go, gorilla/websocket, bufio) assumed lawful streams"],
     "assumptions": ["transports deliver bytes in order without loss (hypothesis Reader.Lawful)",
                     "e2e runs use generous deadlines (20 s + size-dependent) and one retry"],
